@@ -35,7 +35,7 @@ META = {
     "task objects to model tasks (hashing.task_def_case); the abstract cache 'hit iff a result is stored under the checksum' "
     "(the job protocol itself is C10-C12's subject).",
     "rule": "case = (task A, task B, aspect): python tasks (function from generated source: body, closure value, input value / "
-    "type / container order / numpy shape / dtype), shell tasks (executable, argstr, position, sep, formatter, input value), "
+    "type / container order / numpy shape / dtype / memory layout / raw-buffer twins), shell tasks (executable, argstr, position, sep, formatter, input value), "
     "workflow tasks (constructor closure); distinct by canonical JSON; every case is non-trivial (two task classes built, "
     "two submissions, one fresh run)",
     "assumptions": [
@@ -111,7 +111,7 @@ def gen_pair(rng) -> dict:
 
     aspect = rng.choice(
         ["same", "same", "body", "closure", "input-value", "input-value", "input-type", "input-shape", "input-dtype",
-         "input-order", "argstr", "position", "sep", "formatter", "executable", "shell-input", "wf-closure"]
+         "input-order", "input-layout", "input-rawbuffer", "argstr", "position", "sep", "formatter", "executable", "shell-input", "wf-closure"]
     )  # fmt: skip
     x = rng.randint(0, 50)
     if aspect == "same":
@@ -153,6 +153,10 @@ def gen_pair(rng) -> dict:
                 body = ["return repr(x.shape) + str(x.dtype) + repr(x.tolist())"]
                 return {"a": py(body, {"x": arr}), "b": py(body, {"x": m[0]}), "aspect": aspect, "equiv": False}
         return gen_pair(rng)
+    if aspect in ("input-layout", "input-rawbuffer"):
+        a, b, same = H.gen_layout_pair(rng, "layout" if aspect == "input-layout" else "raw")
+        body = ["return repr(x.shape) + str(x.dtype) + repr(x.tolist())"]
+        return {"a": py(body, {"x": a}), "b": py(body, {"x": b}), "aspect": aspect, "equiv": same}
     if aspect == "input-order":
         items = [[_s(f"k{j}"), _i(rng.randint(0, 9))] for j in range(rng.randint(2, 4))]
         sh_items = list(items)
